@@ -1399,8 +1399,11 @@ theorem data_runFrame (p : Prog) (hh : Hist) {s0 : St} {f : Frame} {rest : List 
     · exact quiet _ [] (by nb) (by intro h'; cases h') (DQ.refl _) rfl rfl framesQuiet_nil h.wq
     · split
       · rename_i e ex work _
-        exact quiet _ [.despawnWork work] (by nb) (by intro h'; cases h') (DQ.right (DQ.despawn1 _ e) ⟨rfl, rfl, rfl⟩) (by simp [St.push])
-          (by simp [St.push]) (framesQuiet_one (by nb) trivial) (by simp [St.push]; exact h.wq)
+        split
+        · exact quiet _ [.despawnWork work] (by nb) (by intro h'; cases h') (DQ.right (DQ.despawn1 _ e) ⟨rfl, rfl, rfl⟩) (by simp [St.push])
+            (by simp [St.push]) (framesQuiet_one (by nb) trivial) (by simp [St.push]; exact h.wq)
+        · refine quiet _ [.flush, .despawnWork _] (by nb) (by intro h'; cases h') (DQ.of_same ⟨rfl, rfl, rfl⟩) rfl rfl ?_ h.wq
+          intro g hg; simp at hg; rcases hg with rfl | rfl <;> exact ⟨noData_of_notBatch (by nb), trivial⟩
       · split
         · exact quiet _ [.despawnWork _] (by nb) (by intro h'; cases h') (DQ.of_same ⟨rfl, rfl, rfl⟩) rfl rfl (framesQuiet_one (by nb) trivial) h.wq
         · exact quiet _ [.despawnWork _] (by nb) (by intro h'; cases h') (DQ.of_same ⟨rfl, rfl, rfl⟩) rfl rfl (framesQuiet_one (by nb) trivial) h.wq
